@@ -296,7 +296,7 @@ def pairsetup_family(run, replay=None):
 # Notify family: C10
 # =====================================================================================================
 
-NT_GUARDS = ["skip_originator", "only_subscribed", "unsubscribe_clears", "session_removed_on_close", "no_event_on_same_value",
+NT_GUARDS = ["event_carries_change_value", "changes_notified_in_order", "skip_originator", "only_subscribed", "unsubscribe_clears", "session_removed_on_close", "no_event_on_same_value",
              "subscribe_requires_ev_perm", "notified_once", "write_tolerates_vanished_session"]
 
 
@@ -492,7 +492,10 @@ def notify_gen(run):
     race += [dict(a='RemoteRace', c='c1', d='c2', ch='x', v=(i + 1) % 2) for i in range(rounds)]
     race2 = [dict(a='Connect', c=c, ch='none', v=0) for c in ('c1', 'c2', 'c3')] + [dict(a='Sub', c='c3', ch='y', v=0), dict(a='Sub', c='c2', ch='y', v=0)]
     race2 += [dict(a='RemoteRace', c='c1', d='c2', ch='y', v=(i + 1) % 2) for i in range(rounds // 3)]
-    groups = [('edge', edge), ('word', words)] + [('attack:' + g, [a]) for g, a in attacks] + [('sim', sim), ('race', [race, race2])]
+    # two goroutines of the application set the other value and the current value at the same time (LocalPair of Notify.tla)
+    race3 = [dict(a='Connect', c=c, ch='none', v=0) for c in ('c1', 'c2', 'c3')] + [dict(a='Sub', c=c, ch='x', v=0) for c in ('c1', 'c2')]
+    race3 += [dict(a='LocalPair', c='app', ch='x', v=0) for i in range(rounds)]
+    groups = [('edge', edge), ('word', words)] + [('attack:' + g, [a]) for g, a in attacks] + [('sim', sim), ('race', [race, race2, race3])]
     return groups, dict(racing_write_rounds=rounds + rounds // 3, edge_words=len(edge), edge_words_enumerated=nedge, words_enumerated=nall, words_replayed=len(words), word_len=n,
                         attack_words=len(attacks), sim_words=len(sim), sim_depth=depth)
 
@@ -510,7 +513,7 @@ def notify_family(run, replay=None):
                     getter_reads=sum(1 for x in lines if x.get('a') == 'Getter' and not x.get('skipped')), events_after_getter_reads=sum(len(x.get('got', [])) for x in lines if x.get('a') == 'Getter'),
                     steps_skipped_drift=sum(1 for x in lines if x.get('skipped')))
     return generic_family(run, replay, hcv='notify', trace_mod='NotifyTrace', gen=notify_gen,
-                          rules={'ExactlyOnce': 'C10', 'NoAppPanic': 'C10', 'FenceAnswered': 'C10'}, level='model_checking',
+                          rules={'ExactlyOnce': 'C10', 'CarriesNewValue': 'C10', 'NoAppPanic': 'C10', 'FenceAnswered': 'C10'}, level='model_checking',
                           assumptions=['three reference controllers with pre-seeded pairings, real pair-verify, encrypted sessions over loopback TCP',
                                        'EVENTs are attributed to an action by fencing every open connection with its own request/response after the action (events are written synchronously by hc before the causing call returns)',
                                        'a closed connection cannot be observed receiving anything: observed white-box as "the context holds no session for it" and black-box as "a reconnect starts without subscriptions"',
